@@ -1,6 +1,7 @@
 package pqrun
 
 import (
+	"strings"
 	"bytes"
 	"fmt"
 
@@ -29,6 +30,15 @@ func RunConcurrent(r *engine.RNG, cfg Config, events int) (*Session, *sched.Sys,
 	pr := &engine.RNG{S: r.Next()}
 	cr := &engine.RNG{S: r.Next()}
 	producerDone := false
+	// the queue calls and their results, in completion order, between the scheduler's lock events
+	// (thread 0 = producer: write / next / flush; thread 1 = consumer)
+	s.OnEmit = func(line string) {
+		tid := 1
+		if strings.HasPrefix(line, "write ") || strings.HasPrefix(line, "next ") || strings.HasPrefix(line, "flush ") {
+			tid = 0
+		}
+		sys.Note(tid, "ret "+line)
+	}
 
 	producer := func(t *sched.Thread) {
 		sys.SetTx(t, false, 1)
